@@ -13,13 +13,24 @@ use std::sync::{Arc, Mutex};
 
 #[derive(Clone, Debug)]
 enum Step {
-    Query(GoalQ),
+    /// goal and spelling: 0 = canonical `a op b`, 1 = no blanks around a symbolic operator, 2 = doubled blanks
+    Query(GoalQ, u8),
     SetBase(String, V),
     Remove(String),
     /// hand in a brand-new Facts object holding equal content
     FreshEqualStore,
     /// retract every logical (derived) fact in the attached RETE engine
     RetractDerivedInRete,
+}
+
+fn spell(g: &GoalQ, style: u8) -> String {
+    let t = g.text();
+    let op = g.atom.op.text();
+    match style {
+        1 if g.atom.op.is_symbolic() => t.replacen(&format!(" {} ", op), op, 1),
+        2 => t.replacen(&format!(" {} ", op), &format!("  {}  ", op), 1),
+        _ => t,
+    }
 }
 
 fn gen_history(s: &mut Src, kb: &Kb) -> Vec<Step> {
@@ -33,7 +44,10 @@ fn gen_history(s: &mut Src, kb: &Kb) -> Vec<Step> {
                 // repeat an earlier goal half of the time
                 let g = if !goals.is_empty() && s.bool() { goals[s.below(goals.len())].clone() } else { gen_goal(s, kb) };
                 goals.push(g.clone());
-                Step::Query(g)
+                // the same goal in another spelling is another query text: each spelling must get the answer a fresh
+                // engine gives to that very text
+                let style = [0u8, 0, 0, 1, 2][s.below(5)];
+                Step::Query(g, style)
             }
             1 => match s.below(6) {
                 0 => Step::SetBase(format!("B.n{}", s.below(NB)), V::Int(s.range(0, 6))),
@@ -58,7 +72,8 @@ fn gen_history(s: &mut Src, kb: &Kb) -> Vec<Step> {
     }
     // always end with a query
     let g = if !goals.is_empty() && s.chance(2, 3) { goals[s.below(goals.len())].clone() } else { gen_goal(s, kb) };
-    steps.push(Step::Query(g));
+    let style = [0u8, 0, 1, 2][s.below(4)];
+    steps.push(Step::Query(g, style));
     steps
 }
 
@@ -77,7 +92,7 @@ pub fn run(s: &mut Src, ctx: &mut Ctx) -> Verdict {
         return Verdict::Pass;
     }
     ctx.describe(|| format!("{:?} attached_rete={}\n{}\n  steps: {}", cfg, with_rete, render(&kb, &st0), steps.iter().map(|x| match x {
-        Step::Query(g) => format!("query `{}`", g.text()),
+        Step::Query(g, st) => format!("query `{}`", spell(g, *st)),
         Step::SetBase(k, v) => format!("set {} = {}", k, v.grl()),
         Step::Remove(k) => format!("remove {}", k),
         Step::FreshEqualStore => "fresh-equal-store".to_string(),
@@ -110,10 +125,10 @@ pub fn run(s: &mut Src, ctx: &mut Ctx) -> Verdict {
                     }
                 }
             }
-            Step::Query(g) => {
+            Step::Query(g, st) => {
                 queries += 1;
                 let before = from_facts(&facts);
-                let text = g.text();
+                let text = spell(g, *st);
                 // fresh engine on a deep copy of the same facts
                 let fresh_answer = {
                     let mut fe = build_engine(&kb, &cfg);
@@ -176,7 +191,7 @@ pub fn property() -> Property {
     Property {
         id: "C11",
         level: "exploration",
-        rule: "generated: one BackwardEngine (memoisation on 3/4, DFS or BFS, max_depth 0..4, max_solutions 1/3, optionally an attached IncrementalEngine) over a Horn KB of 1-5 rules; histories of 3-7 steps: query (half of them repeat an earlier goal), assert/change a base fact (including type twins: the same text as a string instead of a number/boolean), remove a base or derived fact, hand in a brand-new equal store, retract all logical facts in the attached RETE engine; always ending with a query. Oracle: for every query, provable equals the answer of a freshly constructed engine (same KB, same config, fresh RETE engine if attached) on a deep copy of the facts as they were just before the query. Non-trivial: a goal is repeated after the facts changed so that the fresh engine's answer flips, or repeated on an equal store; distinct by (KB, store, config, history).",
+        rule: "generated: one BackwardEngine (memoisation on 3/4, DFS or BFS, max_depth 0..4, max_solutions 1/3, optionally an attached IncrementalEngine) over a Horn KB of 1-5 rules; histories of 3-7 steps: query (half of them repeat an earlier goal, in one of three spellings: canonical, no blanks, doubled blanks), assert/change a base fact (including type twins: the same text as a string instead of a number/boolean), remove a base or derived fact, hand in a brand-new equal store, retract all logical facts in the attached RETE engine; always ending with a query. Oracle: for every query, provable equals the answer of a freshly constructed engine (same KB, same config, fresh RETE engine if attached) on a deep copy of the facts as they were just before the query. Non-trivial: a goal is repeated after the facts changed so that the fresh engine's answer flips, or repeated on an equal store; distinct by (KB, store, config, history).",
         assumptions: vec!["the fresh engine is the same code without history: the oracle isolates exactly the dependence on history; engine errors/panics are counted, not judged".into()],
         parts: vec![Part { name: "random", run, quick: Budget::Random { cases: 60_000, bytes: 400 }, thorough: Budget::Random { cases: 2_000_000, bytes: 400 }, min_nontrivial_pct: 15 }],
         watchdog: true,
